@@ -32,6 +32,7 @@ import (
 	"github.com/ElrondNetwork/elrond-go/data/block"
 	"github.com/ElrondNetwork/elrond-go/data/rewardTx"
 	"github.com/ElrondNetwork/elrond-go/data/state"
+	"github.com/ElrondNetwork/elrond-go/epochStart"
 	"github.com/ElrondNetwork/elrond-go/epochStart/metachain"
 	"github.com/ElrondNetwork/elrond-go/epochStart/mock"
 	"github.com/ElrondNetwork/elrond-go/hashing/sha256"
@@ -153,6 +154,18 @@ var variant int
 
 // runReal executes CreateRewardsMiniBlocks on a real rewardsCreatorV2 for the input (amounts times scale + jitter 0)
 func runReal(in *input, scale *big.Int, factor float64, gradient *big.Int, totalTopUp *big.Int) (*result, *world) {
+	return runRealWith(in, scale, factor, gradient, totalTopUp, nil)
+}
+
+// override: the economics figures do not come from the input record but from a real economics component that has
+// already published them into the shared provider and returned the Economics for the given metablock
+type override struct {
+	provider epochStart.EpochEconomicsDataProvider
+	eco      *block.Economics
+	mb       *block.MetaBlock
+}
+
+func runRealWith(in *input, scale *big.Int, factor float64, gradient *big.Int, totalTopUp *big.Int, ov *override) (*result, *world) {
 	w := newWorld(len(in.Blocks) - 1)
 	amt := func(x int) *big.Int { return new(big.Int).Mul(big.NewInt(int64(x)), scale) }
 	protAddr := w.address("shard", 1, 200)
@@ -219,7 +232,12 @@ func runReal(in *input, scale *big.Int, factor float64, gradient *big.Int, total
 		topUps[string(key)] = amt(n.TopUp)
 		validators[v.ShardId] = append(validators[v.ShardId], v)
 	}
+	var provider epochStart.EpochEconomicsDataProvider
 	stats := metachain.NewEpochEconomicsStatistics()
+	provider = stats
+	if ov != nil {
+		provider = ov.provider
+	}
 	stats.SetNumberOfBlocks(uint64(in.Nb))
 	bps := map[uint32]uint64{}
 	for s, b := range in.Blocks {
@@ -261,7 +279,7 @@ func runReal(in *input, scale *big.Int, factor float64, gradient *big.Int, total
 				return nil, fmt.Errorf("unknown key")
 			},
 		},
-		EconomicsDataProvider: stats,
+		EconomicsDataProvider: provider,
 		RewardsHandler: &economicsmocks.EconomicsHandlerStub{
 			RewardsTopUpGradientPointCalled: func() *big.Int { return new(big.Int).Set(gradient) },
 			RewardsTopUpFactorCalled:        func() float64 { return factor },
@@ -274,6 +292,9 @@ func runReal(in *input, scale *big.Int, factor float64, gradient *big.Int, total
 	mb := &block.MetaBlock{Epoch: epoch, Round: 1000, Nonce: 900, DevFeesInEpoch: amt(in.Dev), AccumulatedFeesInEpoch: amt(in.Dev + in.Leader*2)}
 	eco := &block.Economics{TotalToDistribute: amt(in.Total), RewardsForProtocolSustainability: amt(in.Prot),
 		TotalSupply: amt(in.Total * 1000), TotalNewlyMinted: amt(in.Total), RewardsPerBlock: big.NewInt(1), NodePrice: big.NewInt(1)}
+	if ov != nil {
+		mb, eco = ov.mb, ov.eco
+	}
 	mbs, err := rc.CreateRewardsMiniBlocks(mb, validators, eco)
 	res := &result{}
 	if err != nil {
@@ -628,6 +649,10 @@ func main() {
 	switch os.Args[1] {
 	case "run":
 		runInputs(os.Args[2], os.Args[3])
+	case "e2e":
+		seed, _ := strconv.ParseInt(os.Args[2], 10, 64)
+		runs, _ := strconv.Atoi(os.Args[3])
+		recordE2E(seed, runs, os.Args[4])
 	case "runv1":
 		runInputsV1(os.Args[2], os.Args[3])
 	case "recordv1":
